@@ -1,13 +1,70 @@
-(* C18 - NTT-based products equal the negacyclic product mod q
-   FULL STATEMENT: see DESIGN.md section 7 (ring theorem + NTT refinement with bounds).  Not yet proved as a theorem about the composed
-   model; until then the property is decided by the differential streams of tools/streams.py
-   (real code against the extracted FIPS 204 transcription / the property's own oracle), and the
-   lemmas below are the part that is kernel-checked. *)
-Require Import F204.Base.Util F204.Base.Mach F204.Gen.Params F204.Impl.Helpers F204.Spec.SpecNtt F204.Proofs.KernelLemmas.
+(* C18 - NTT-based polynomial products equal the negacyclic product mod q; no 32-bit intermediate overflows.
+   Statements only (proofs: Proofs/NttRefine.v, NttRing.v, NttPipeline.v).
+   Spec = FIPS 204 Algorithms 41-48 over mathematical integers; negacyclic = schoolbook product in
+   Z_q[X]/(X^256+1); the left-hand sides with `Ok` are the implementation model in checked machine
+   arithmetic (Ok = no i32/i64 overflow and no failed debug_assert!). *)
+Require Import F204.Base.Util F204.Base.Mach F204.Gen.Params F204.Impl.Helpers F204.Impl.Ntt
+  F204.Spec.SpecConv F204.Spec.SpecNtt F204.Spec.SpecMLDSA
+  F204.Proofs.KernelLemmas F204.Proofs.NttRefine F204.Proofs.NttRing F204.Proofs.NttPipeline.
 Open Scope Z_scope.
-(* the tables the transforms use are the FIPS 204 constants in Montgomery form *)
-Theorem C18_tables_partial :
+
+(* 1. the FIPS 204 transforms multiply in the ring: for ALL a, b *)
+Theorem C18_ring : forall a b, length a = 256%nat -> length b = 256%nat ->
+  invNTT (MultiplyNTT (NTT a) (NTT b)) = negacyclic a b.
+Proof. exact ntt_ring. Qed.
+Theorem C18_inverse_left : forall w, length w = 256%nat -> invNTT (NTT w) = map (fun x => x mod Q) w.
+Proof. exact invNTT_NTT. Qed.
+Theorem C18_inverse_right : forall x, length x = 256%nat -> Forall (fun v => 0 <= v < Q) x -> NTT (invNTT x) = x.
+Proof. exact NTT_invNTT. Qed.
+(* with one operand already in the NTT domain (matrix entries of ML-DSA) *)
+Theorem C18_ntt_domain_product : forall a_hat s, length a_hat = 256%nat -> Forall (fun v => 0 <= v < Q) a_hat -> length s = 256%nat ->
+  invNTT (MultiplyNTT a_hat (NTT s)) = negacyclic (invNTT a_hat) s.
+Proof. exact ntt_domain_product. Qed.
+
+(* 2. the implementation's forward transform: congruent to FIPS NTT, interval bound B + 8*G(Bmax), no overflow *)
+Theorem C18_forward_ntt : forall w B Bmax,
+  length w = 256%nat -> bounded B w -> 0 <= B -> B + 8 * G Bmax <= Bmax -> 0 <= Bmax <= 2147483647 ->
+  exists w', ntt_poly w = Ok w' /\ Forall2 congQ w' (NTT w) /\ bounded (B + 8 * G Bmax) w' /\ length w' = 256%nat.
+Proof. exact ntt_poly_ok. Qed.
+(* every call site feeds |coefficients| <= 2^19 (y, z; smaller for s, t0, t1, c): output below the to_mont bound *)
+Theorem C18_forward_ntt_callsites : forall w, length w = 256%nat -> bounded 524288 w ->
+  exists w', ntt_poly w = Ok w' /\ Forall2 congQ w' (NTT w) /\ bounded 35000000 w' /\ length w' = 256%nat.
+Proof. exact ntt_poly_callsite. Qed.
+(* 3. the inverse transform EQUALS FIPS invNTT on the whole domain of its copy-in reduction: any |x| < 2^31 - 2^22,
+      in particular every unreduced sum mat_vec_mul can produce from an adversarial response vector *)
+Theorem C18_inverse_ntt_exact : forall w, length w = 256%nat -> bounded 2143289343 w -> inv_ntt_poly w = Ok (invNTT w).
+Proof. exact inv_ntt_poly_ok. Qed.
+(* 4. matrix-vector product: any matrix with entries in [0,q), any vector below the to_mont bound, up to 7 columns *)
+Theorem C18_mat_vec_mul : forall A u,
+  Forall (fun row => Forall in_q row /\ length row = length u /\ Forall (fun p => length p = 256%nat) row) A ->
+  Forall (fun p => bounded 67058538 p /\ length p = 256%nat) u -> (length u <= 7)%nat ->
+  exists w, mat_vec_mul A u = Ok w /\ Forall (bounded (7 * 4222912)) w
+            /\ Forall2 (Forall2 congQ) w (MatrixVectorNTT A u) /\ Forall (fun p => length p = 256%nat) w.
+Proof. exact mat_vec_mul_ok. Qed.
+(* 5. the whole pipeline on every in-range input returns, and returns exactly the FIPS 204 value *)
+Theorem C18_pipeline : forall A s,
+  matrix_ok (length s) A -> Forall (poly256 524288) s -> (length s <= 7)%nat ->
+  (sh <- ntt s ;; p <- mat_vec_mul A sh ;; inv_ntt p) = Ok (vinvNTT (MatrixVectorNTT A (vNTT s))).
+Proof. exact ntt_pipeline_ok. Qed.
+(* 6. tables *)
+Theorem C18_tables :
   ZETA_TABLE_MONT = map (fun m => (zeta (Z.of_nat m) * 4294967296) mod Q) (seq 0 256) /\
   (F_PLAIN * 256) mod Q = 1 /\ F_MONT = (F_PLAIN * 4294967296) mod Q.
 Proof. split; [exact zeta_table_spec | destruct f_mont_spec as (A & B & _); split; assumption]. Qed.
-Print Assumptions C18_tables_partial.
+
+(* non-vacuity: a product that wraps around X^256 = -1 *)
+Example C18_wraparound :
+  let x255 := repeat 0 255 ++ [1] in let x1 := 0 :: 1 :: repeat 0 254 in
+  nth 0 (negacyclic x255 x1) 0 = Q - 1 /\ nth 0 (invNTT (MultiplyNTT (NTT x255) (NTT x1))) 0 = Q - 1.
+Proof. split; vm_compute; reflexivity. Qed.
+
+Print Assumptions C18_ring.
+Print Assumptions C18_inverse_left.
+Print Assumptions C18_inverse_right.
+Print Assumptions C18_ntt_domain_product.
+Print Assumptions C18_forward_ntt.
+Print Assumptions C18_forward_ntt_callsites.
+Print Assumptions C18_inverse_ntt_exact.
+Print Assumptions C18_mat_vec_mul.
+Print Assumptions C18_pipeline.
+Print Assumptions C18_tables.
